@@ -155,7 +155,7 @@ def run_case(case):
                     for a, wa, Ea in zip(sh, w, E):
                         out[:, zt] += wa * (Ea @ f[:, (zt + a) % nz])
                 return out
-            datas = [('const', np.full((nq, nz), 2.5))] + [('dense%d' % k, d) for k, d in enumerate(dense)] + [('tiny', 1e-11 * dense[0])]      # the step is linear in f
+            datas = [('const', np.full((nq, nz), 2.5))] + [('dense%d' % k, d) for k, d in enumerate(dense)] + [('tiny', 1e-20 * dense[0])]      # the step is linear in f
             full = cls in (0.25, '-wrap') and (r0 + rI, v0 + vI) in ((0, 4), (2, 1)) and vp == [1, 1]
             if full:
                 for a, b in itertools.product(range(nq), range(nz)):
